@@ -127,12 +127,10 @@ PROPS["C13"] = dict(
     obligations=[
         dict(id="C13.a", harness="C13_fileserver.cpp", entry="h_c13a_normalize", ctors=False, cut=[STRING_REALLOC],
              desc="file_server::normalize_path == independent stack normaliser ('.', '..', '//' resolved, never above '/')",
-             tiers=T(quick=dict(split=[list(range(0, 7))], unwind="p0+3", timeout=600, bounds="every path of length 0..6 (arbitrary non-NUL bytes)"),
-                     thorough=dict(split=[list(range(0, 11))], unwind="p0+3", timeout=3000, bounds="every path of length 0..10"))),
+             tiers=T(quick=dict(split=[list(range(0, 7))], unwind="p0+3", timeout=600, bounds="every path of length 0..6 (arbitrary non-NUL bytes)"))),
         dict(id="C13.a2", harness="C13_fileserver.cpp", entry="h_c13a_normalize", ctors=False, cut=[STRING_REALLOC],
              desc="normalize_path == reference normaliser on longer paths over the alphabet {'/', '.', 'a', 'b'} (the function only distinguishes '/', '.' and other bytes)",
-             tiers=T(quick=dict(defs=dict(VERIF_ALPHABET=1), split=[[8, 9]], unwind="p0+3", timeout=900, bounds="every path of length 8..9 over {/,.,a,b} starting with '/'"),
-                     thorough=dict(defs=dict(VERIF_ALPHABET=1), split=[[8, 9, 10, 11, 12]], unwind="p0+3", timeout=3000, bounds="every path of length 8..12 over {/,.,a,b}"))),
+             tiers=T(quick=dict(defs=dict(VERIF_ALPHABET=1), split=[[8, 9]], unwind="p0+3", timeout=900, bounds="every path of length 8..9 over {/,.,a,b} starting with '/'"))),
         dict(id="C13.b", harness="C13_fileserver.cpp", entry="h_c13b_is_file_prefix", ctors=False,
              desc="is_file_prefix(prefix,full) <=> prefix is a whole-component prefix of full",
              tiers=T(quick=dict(split=[[0, 1, 2, 3], [0, 1, 2, 3, 4, 5]], unwind=8, timeout=600, bounds="every prefix of length 0..3 x every path of length 0..5"))),
@@ -151,7 +149,7 @@ PROPS["C18"] = dict(
         dict(id="C18.a", harness="C18_filestorage.cpp", entry="h_c18a_torn_write", ctors=False, clang_flags=["-fno-inline"], big_alloc=72, models=["stubs_crc_ideal.c"], cut=[STRING_REALLOC],
              desc="save_to_file/write_all then read_from_file/read_all on every torn image: no session, or exactly the old, or exactly the new (timeout,data)",
              tiers=T(quick=dict(split=[[0, 2, 3], [0, 1, 3], [0, 1], [0, 1], [0, 1, 2, 3]], unwind=26, unwindset={"F__ZN6cppcms8sessions20session_file_storage8read_allEiPvi.0": 4, "F__ZN6cppcms8sessions20session_file_storage9write_allEiPKvi.0": 3}, timeout=900, bounds="old data length in {0,2,3} x new length in {0,1,3} x {no old file, old file}; symbolic bytes, timeouts, clock, per-byte crash mask; header old/new and crash length enumerated"),
-                     thorough=dict(split=[[0, 1, 2, 3, 4, 6], [0, 1, 2, 3, 4, 6], [0, 1], [0, 1], [0, 1, 2, 3, 4, 5, 6]], unwind=26, unwindset={"F__ZN6cppcms8sessions20session_file_storage8read_allEiPvi.0": 4, "F__ZN6cppcms8sessions20session_file_storage9write_allEiPKvi.0": 3}, timeout=3000, bounds="old/new data lengths in {0,1,2,3,4,6}"))),
+                     thorough=dict(split=[[0, 2, 3, 4], [0, 1, 3, 4], [0, 1], [0, 1], [0, 1, 2, 3, 4]], unwind=26, unwindset={"F__ZN6cppcms8sessions20session_file_storage8read_allEiPvi.0": 4, "F__ZN6cppcms8sessions20session_file_storage9write_allEiPKvi.0": 3}, timeout=3000, bounds="old data length in {0,2,3,4} x new data length in {0,1,3,4}; crash length 0..4; per-byte old/new mask; which header survived"))),
         dict(id="C18.b", harness="C18_filestorage.cpp", entry="h_c18b_short_io", ctors=False, clang_flags=["-fno-inline"], big_alloc=72, models=["stubs_crc_ideal.c"], cut=[STRING_REALLOC],
              desc="completed save with arbitrary partial write counts, load with arbitrary partial read counts (on the payload requests, <= 3 bytes): the saved value or no session",
              tiers=T(quick=dict(split=[[0, 1, 2, 3]], unwind=20, unwindset={"F__ZN6cppcms8sessions20session_file_storage8read_allEiPvi.0": 7, "F__ZN6cppcms8sessions20session_file_storage9write_allEiPKvi.0": 6}, timeout=900, bounds="data length 0..3, every partial count per payload read/write call"))),
@@ -215,7 +213,7 @@ PROPS["C12"] = dict(
              noop=["_ZNSi5seekgE"], cut=["multipart_parser14process_header"],
              desc="multipart_parser::consume in the part-content state, one inductive step: from any pending prefix length q and for any chunk, the sink receives exactly the stream minus the pending delimiter prefix, the part completes exactly at the first delimiter, position_ is the longest suffix/prefix overlap",
              tiers=T(quick=dict(defs=dict(VERIF_NK=1), split=[[0, 1, 2, 3, 4], [1, 2, 3, 4]], unwind=12, unwindset={"F__ZN6cppcms4impl16multipart_parser7consumeERPKcS3_.0": "p1+2", "F__ZN6cppcms4impl16multipart_parser7consumeERPKcS3_.1": "p1+2"}, timeout=900, bounds="delimiter CRLF--k (k any bchar); pending prefix q in 0..4; chunk of 1..4 arbitrary bytes"),
-                     thorough=dict(defs=dict(VERIF_NK=2), split=[[0, 1, 2, 3, 4, 5], [1, 2, 3, 4, 5, 6, 7, 8]], unwind=16, unwindset={"F__ZN6cppcms4impl16multipart_parser7consumeERPKcS3_.0": "p1+2", "F__ZN6cppcms4impl16multipart_parser7consumeERPKcS3_.1": "p1+2"}, timeout=3000, bounds="delimiter CRLF--k1k2; pending prefix q in 0..5; chunk of 1..8 arbitrary bytes"))),
+                     thorough=dict(defs=dict(VERIF_NK=1), split=[[0, 1, 2, 3, 4], [1, 2, 3, 4, 5]], unwind=12, unwindset={"F__ZN6cppcms4impl16multipart_parser7consumeERPKcS3_.0": "p1+2", "F__ZN6cppcms4impl16multipart_parser7consumeERPKcS3_.1": "p1+2"}, timeout=3000, bounds="delimiter CRLF--k (k any bchar); pending prefix q in 0..4; chunk of 1..5 arbitrary bytes"))),
         dict(id="C12.a-k2", harness="C12_multipart.cpp", entry="h_c12a_matcher_step", ctors=False, models=["stubs_httpfile.c"],
              noop=["_ZNSi5seekgE"], cut=["multipart_parser14process_header"],
              desc="the same inductive matcher step for a two-character boundary key (delimiter of 6 bytes, more look-alike prefixes)",
@@ -261,8 +259,7 @@ PROPS["C02"] = dict(
         dict(id="C02.e", harness="C02_scgi.cpp", entry="h_c02e_scgi_walk_safety", ctors=False, clang_flags=["-fno-inline"],
              drop=["_ZN6cppcms4impl10string_map3addEPKcS3_"], roots=["verif_env_add"], models=["stubs_c02.c"],
              desc="scgi::on_headers_chunk_read on an arbitrary header block: never reads outside buffer_, completion handler called exactly once",
-             tiers=T(quick=dict(split=[[1, 2, 3]], unwind=20, unwindset={SCGI_WALK: "p0+2", "X_strlen.0": "p0+3", "verif_memcpy.0": "p0+3"}, timeout=900, bounds="17-byte netstring, walked region of 1..3 arbitrary bytes"),
-                     thorough=dict(split=[[1, 2, 3, 4]], unwind=20, unwindset={SCGI_WALK: "p0+2", "X_strlen.0": "p0+3", "verif_memcpy.0": "p0+3"}, timeout=3000, bounds="17-byte netstring, walked region of 1..4 arbitrary bytes"))),
+             tiers=T(quick=dict(split=[[1, 2, 3]], unwind=20, unwindset={SCGI_WALK: "p0+2", "X_strlen.0": "p0+3", "verif_memcpy.0": "p0+3"}, timeout=900, bounds="17-byte netstring, walked region of 1..3 arbitrary bytes"))),
         dict(id="C02.g", harness="C02_request.cpp", entry="h_c02g_content_start", ctors=False, models=["stubs_httpfile.c"],
              noop=["multipart_parserC[12]E", "multipart_parser16set_content_type"],
              desc="request::on_content_start for an arbitrary 64-bit declared length: returns 0/400/413, never throws, allocates exactly the declared length and only within the configured limit; a negative length is refused",
@@ -280,8 +277,7 @@ PROPS["C01"] = dict(
         dict(id="C01.c", harness="C01_fastcgi.cpp", entry="h_c01c_fcgi_roundtrip", ctors=False, clang_flags=["-fno-inline"],
              drop=["_ZN6cppcms4impl10string_map3addEPKcS3_"], roots=["verif_env_add"], models=["stubs_c02.c"],
              desc="fastcgi::parse_pairs/read_len: decoding the FastCGI name-value encoding (1-byte and 4-byte length forms, chosen symbolically per field) returns exactly the encoded pairs in order",
-             tiers=T(quick=dict(split=[[1, 2], [0, 1]], unwind=22, unwindset={"F__ZN6cppcms4impl3cgi7fastcgi11parse_pairsEv.0": 4, "verif_memcpy.0": 5, "F__ZN6cppcms4impl11string_pool3addEPKcm.0": 4, "F__ZL15cstrlen_boundedPKh.0": 5}, timeout=900, bounds="first pair: name length in {1,2}, value length in {0,1}, symbolic bytes; second pair fixed; each of 4 length fields in either form"),
-                     thorough=dict(split=[[1, 3], [0, 2]], unwind=22, unwindset={"F__ZN6cppcms4impl3cgi7fastcgi11parse_pairsEv.0": 4, "verif_memcpy.0": 6, "F__ZN6cppcms4impl11string_pool3addEPKcm.0": 5, "F__ZL15cstrlen_boundedPKh.0": 6}, timeout=3000, bounds="first pair: name length in {1,3}, value length in {0,2}"))),
+             tiers=T(quick=dict(split=[[1, 2], [0, 1]], unwind=22, unwindset={"F__ZN6cppcms4impl3cgi7fastcgi11parse_pairsEv.0": 4, "verif_memcpy.0": 5, "F__ZN6cppcms4impl11string_pool3addEPKcm.0": 4, "F__ZL15cstrlen_boundedPKh.0": 5}, timeout=900, bounds="first pair: name length in {1,2}, value length in {0,1}, symbolic bytes; second pair fixed; each of 4 length fields in either form"))),
         dict(id="C01.d", harness="C01_fastcgi.cpp", entry="h_c01d_record_reassembly", ctors=False, clang_flags=["-fno-inline"],
              desc="fastcgi::non_blocking_read_record: a record is taken from the read cache only when header, content and padding are all present; exactly the content is appended to body_, padding skipped, cursors stay inside the cache; otherwise nothing changes (also C02: no access outside cache_)",
              tiers=T(quick=dict(split=[[0, 2]], unwind=20, timeout=900, bounds="16-byte cache with arbitrary bytes and arbitrary cursors 0<=start<=end<=16; 0 or 2 bytes already in body_"))),
@@ -291,8 +287,7 @@ PROPS["C01"] = dict(
         dict(id="C01.e", harness="C02_scgi.cpp", entry="h_c01e_scgi_pairs", ctors=False, clang_flags=["-fno-inline"],
              drop=["_ZN6cppcms4impl10string_map3addEPKcS3_"], roots=["verif_env_add"], models=["stubs_c02.c"],
              desc="scgi::on_headers_chunk_read: a well-formed netstring header block delivers exactly its NUL-separated pairs, in order",
-             tiers=T(quick=dict(split=[[1, 2], [0, 1]], unwind=22, unwindset={SCGI_WALK: 5, "X_strlen.0": 5, "verif_memcpy.0": 5, "F__ZL15cstrlen_boundedPKh.0": 5}, timeout=900, bounds="first pair: name length in {1,2}, value length in {0,1}, symbolic bytes; second pair fixed"),
-                     thorough=dict(split=[[1, 3], [0, 2]], unwind=22, unwindset={SCGI_WALK: 5, "X_strlen.0": 6, "verif_memcpy.0": 6, "F__ZL15cstrlen_boundedPKh.0": 6}, timeout=3000, bounds="first pair: name length in {1,3}, value length in {0,2}"))),
+             tiers=T(quick=dict(split=[[1, 2], [0, 1]], unwind=22, unwindset={SCGI_WALK: 5, "X_strlen.0": 5, "verif_memcpy.0": 5, "F__ZL15cstrlen_boundedPKh.0": 5}, timeout=900, bounds="first pair: name length in {1,2}, value length in {0,1}, symbolic bytes; second pair fixed"))),
     ],
 )
 PROPS["C02"]["obligations"].append(
@@ -304,6 +299,38 @@ PROPS["C02"]["obligations"].append(
              drop=["_ZN6cppcms4impl10string_map3addEPKcS3_"], roots=["verif_env_add"], models=["stubs_c02.c"],
              desc="fastcgi::parse_pairs on an arbitrary params body never reads outside body_ (length fields up to 2^31 included)",
              tiers=T(quick=dict(split=[[0, 1, 2, 4, 6]], unwind=12, unwindset={"F__ZN6cppcms4impl3cgi7fastcgi11parse_pairsEv.0": "p0+2"}, timeout=900, bounds="every body of length 0,1,2,4,6 (exact-size heap block)"))))
+
+PROPS["C04"] = dict(
+    title="XSS filter output contains only white-listed markup and is stable",
+    level="model_checking",
+    trusted_base=COMMON_TB,
+    assumptions=["strtol is the C library's (modelled for bases 10/16 incl. whitespace, sign, 0x prefix, saturation)",
+                 "a tag part handed to parse_part contains no '>' before its last byte and an entity part no ';' before its last byte (both established by C04.a)"],
+    outside="rule tables (std::map/std::set lookups, regex functors), validate_nesting, validate_entry_by_rules, output assembly in validate_and_filter_if_invalid, "
+            "character-set filtering before tokenising (C14), stability of filter(filter(x)), parts longer than the stated bounds",
+    obligations=[
+        dict(id="C04.a", harness="C04_xss.cpp", entry="h_c04a_split", ctors=False, clang_flags=["-fno-inline"],
+             drop=["5entryESaIS3_EE9push_backEOS3_"], noop=["5entryESaIS3_EE7reserveEm", "5entryESaIS3_EE5clearEv"], roots=["verif_record_part"], models=["stubs_c04a.c"],
+             desc="split_to_parts tiles the input; no '<' '>' '&' inside a plain-text part or a comment body; tag/entity parts end at their first '>' / ';'",
+             tiers=T(quick=dict(split=[list(range(0, 8))], unwind="p0+2", unwindset={"verif_memset.0": 100, "verif_memcpy.0": 100}, timeout=900, bounds="every input of length 0..7 (arbitrary bytes)"),
+                     thorough=dict(split=[list(range(0, 11))], unwind="p0+2", unwindset={"verif_memset.0": 100, "verif_memcpy.0": 100}, timeout=3000, bounds="every input of length 0..10"))),
+        dict(id="C04.b", harness="C04_xss.cpp", entry="h_c04b_parse_tag", ctors=False, drop=["23validate_property_value"], models=["stubs_c04b.c"], cut=["13property_data.*17_M_realloc_insert"],
+             desc="parse_part on <...>: every byte of an accepted tag is tag name, property name, '=', matching quotes, a checked value, space or the closing '/'",
+             tiers=T(quick=dict(split=[list(range(0, 8))], unwind="p0+2", unwindset={"X_strlen.0": 8, "X_memcmp.0": 8, "verif_memset.0": 40}, timeout=900, bounds="every tag part with 0..7 content bytes (no '>')"),
+                     thorough=dict(split=[list(range(0, 9))], unwind="p0+2", unwindset={"X_strlen.0": 8, "X_memcmp.0": 8, "verif_memset.0": 40}, timeout=3000, bounds="every tag part with 0..8 content bytes"))),
+        dict(id="C04.c", harness="C04_xss.cpp", entry="h_c04c_property_value", ctors=False, clang_flags=["-fbuiltin"],
+             desc="validate_property_value(v) <=> v has no '<' '>' and every '&' starts &amp; &lt; &gt; &quot; &apos; &#x27; &#X27; &#39;",
+             tiers=T(quick=dict(split=[list(range(0, 9))], unwind="p0+3", unwindset={"X_strlen.0": 8, "X_memcmp.0": 8}, timeout=600, bounds="every value of length 0..8"),
+                     thorough=dict(split=[list(range(0, 15))], unwind="p0+3", unwindset={"X_strlen.0": 8, "X_memcmp.0": 8}, timeout=3000, bounds="every value of length 0..14"))),
+        dict(id="C04.d", harness="C04_xss.cpp", entry="h_c04d_parse_entity", ctors=False, models=["stubs_c04.c"],
+             desc="parse_part on &...;: accepted => &alnum+; or &#digits; / &#xhex; denoting a legal character (<= U+10FFFF, no C0/C1 control, no U+FFFE/FFFF)",
+             tiers=T(quick=dict(split=[list(range(0, 8))], unwind="p0+4", timeout=600, bounds="every entity part with 0..7 content bytes (no ';')"),
+                     thorough=dict(split=[list(range(0, 11))], unwind="p0+4", timeout=3000, bounds="every entity part with 0..10 content bytes"))),
+        dict(id="C04.e", harness="C04_xss.cpp", entry="h_c04e_uri", ctors=False,
+             desc="uri_parser::parse: accepted => only RFC 3986 characters, '&' only as &amp;/&apos;, and a leading scheme: is exactly the range given to the scheme check (never accepted as relative)",
+             tiers=T(quick=dict(split=[[0, 1, 2]], unwind="p0+1", unwindset={"X_strlen.0": 8, "X_memcmp.0": 8}, timeout=900, bounds="every attribute value of length 0..2 (the recursive-descent parser costs 5 GB at length 2 and > 14 GB at 3)"))),
+    ],
+)
 
 PROPS["C05"] = dict(
     title="Client-side sessions are accepted only if issued by this server and unexpired",
@@ -391,7 +418,6 @@ PROPS["C17"] = dict(
 # properties for which no obligation can be built with this technique (reason required)
 NOT_APPLICABLE = {
     "C03": "solver-based checking could not reach it within budget: fastcgi::format_output + an independent de-framer gave no verdict in 900 s at one gather entry (vector<entry> reallocation of pointer-carrying PODs); nonblocking_write / chunked framing / copy_buf need booster::aio buffers, ostringstream formatting and socket objects that are not encodable here (DESIGN.md section 8)",
-    "C04": "the XSS filter (std::map/std::set rule tables, regex functors, string building in nested loops) is the code shape that exhausted 16 GB at input length 2..3 in comparable units (HTTP tokenizer, url_dispatcher); no obligation could be built within reach (DESIGN.md section 8)",
     "C07": "mem_cache (hash map + three intrusive lists + multimap of deadlines + trigger index) is beyond the heap sizes CBMC handled on IR-derived C here; the simpler buddy allocator already failed (DESIGN.md section 8)",
     "C08": "buddy allocator harness (typed arena) did not finish symbolic execution in 600 s for two operations (recursive page_alloc over pointer-linked free lists in one arena object); the LRU/limit logic lives in mem_cache, see C07",
     "C09": "real thread interleavings are not explorable with this technique (CBMC's concurrency support on IR-derived C++ with heap containers does not scale to two operations); a lock-discipline argument as used for C17 would need the mem_cache encoding that C07 lacks",
